@@ -1,7 +1,9 @@
 #!/bin/sh
 # runs every stored mutant (seeded/, mutants/) against the quick check of its property in scratch copies;
 # writes mutants/RESULTS.txt. Not used by any registered command.
+# The saved regression inputs are switched off (VERIF_NO_REGRESS): a detection counts only if the generated search finds it.
 cd /verif
+export VERIF_NO_REGRESS=1
 OUT=mutants/RESULTS.txt; : > $OUT
 for d in seeded/*/; do
   n=$(basename $d); id=${n%-*}
